@@ -321,13 +321,19 @@ def judge_pdp(inst, actions, cfg=None):
     half = (n - 1) // 2
     v = Verdict()
     acts = list(actions)
+    no_depot_start = False
     if (cfg or {}).get("force_start_at_depot"):
-        if not acts or acts[0] != 0:
-            v.viol.append(("must_start_at_depot", NEG))
-        acts = acts[1:]
+        if acts and acts[0] == 0:
+            acts = acts[1:]
+        else:
+            # a customer at the step of the forced depot visit is a visit of that customer like any other (it counts
+            # towards "visited exactly once"); the missing depot step itself is reported only if nothing else is wrong
+            no_depot_start = True
     if 0 in acts:
         v.viol.append(("depot_inside_tour", NEG))
     _once(v, acts, 1, n)
+    if no_depot_start and not v.viol:
+        v.viol.append(("must_start_at_depot", NEG))
     pos = {a: i for i, a in enumerate(acts)}
     for p in range(1, half + 1):
         d = p + half
